@@ -5,15 +5,14 @@ import Setec.Spec.DBMon
 
 `Spec/DBMon.lean` holds the executable clauses the driver evaluates on what the real code did.
 They are written from the property statements, independently of the model.  This file proves,
-for a growing subset of them, that the specification's own step (`DB.step Cfg.std`), seen as an
+for every one of them, that the specification's own step (`DB.step Cfg.std`), seen as an
 observation, satisfies the clause for every state, caller, operation and oracle choice - so a
 clause that fires on the code is a disagreement with the statement *and* with the model, never
 an artefact of the clause.
 
-Proved here: C01 `denied_noeffect`, `effect_only_if_granted`, `list_exact`, `changes_only_granted`; C02 `inv`, `put`, `reads`, `frame`, `delete_version`, `active`, `bytes_stable` (and
-`reads_total`, `failed_noop` in Properties/C02.lean); C04 `mem_eq_disk`, `savefail_noop`; C06 `recorded`, `before_effect`, `fail_closed`, `unchanged_silent`;
-C09 `cond`; C18 `acknowledged_bytes_kept` (under the store invariant).  Not yet proved of the model: C04 `gen_iff_saved`
-(their content is stated as theorems about the model in the property files, in other words).
+All twenty-two clauses of `DBMon.clauses` are proved here (`all_clauses_sound` states it for every
+state reachable from the empty database; the individual theorems need at most the store
+invariant and `NameInv`).
 -/
 namespace Setec.MonSound
 open Std Setec.KV Setec.DB Setec.DBMon
@@ -841,5 +840,220 @@ theorem c02_put_sound (kv : KV) (c : Caller) (op : Op) (aok sok : Bool) (h : Inv
                   simp [hn, KV.put, hsec, hd, save, putNewMutate, hnone]
       · simp [hn, hg]
   | _ => simp [c02_put, obsOf]
+
+/-- the specification's step satisfies the total-reads clause, always -/
+theorem c02_reads_total_sound (kv : KV) (c : Caller) (op : Op) (aok sok : Bool) :
+    c02_reads_total (obsOf kv c op aok sok) = true := by
+  cases aok with
+  | false => simp [c02_reads_total, obsOf]
+  | true =>
+    cases op with
+    | get n =>
+      simp only [c02_reads_total, obsOf, step, checkAndLog, allowed, granted, Cfg.std]
+      by_cases hg : Acl.allow true c.rules "get" n.toList = true
+      · simp [hg, KV.get]
+        cases h : kv.secrets[n]? with
+        | none => simp [kvErr]
+        | some s => cases h2 : s.versions[s.active]? <;> simp [h2]
+      · simp [hg]
+    | getVersion n k =>
+      simp only [c02_reads_total, obsOf, step, checkAndLog, allowed, granted, Cfg.std]
+      by_cases hg : Acl.allow true c.rules "get" n.toList = true
+      · simp [hg, KV.getVersion]
+        cases h : kv.secrets[n]? with
+        | none => simp [kvErr]
+        | some s => cases h2 : s.versions[k]? <;> simp [h2, kvErr]
+      · simp [hg]
+    | info n =>
+      simp only [c02_reads_total, obsOf, step, checkAndLog, allowed, granted, Cfg.std]
+      by_cases hg : Acl.allow true c.rules "info" n.toList = true
+      · simp [hg, KV.info]
+        cases h : kv.secrets[n]? <;> simp [kvErr]
+      · simp [hg]
+    | list =>
+      simp only [c02_reads_total, obsOf, step, allowed, granted, Cfg.std, KV.list]
+      have := list_items kv (fun n => Acl.allow true c.rules "info" n.toList) kv.secrets.toList
+        (fun p hp => by
+          have := (ExtTreeMap.mem_toList_iff_getElem?_eq_some (t := kv.secrets) (k := p.1) (v := p.2)).mp hp
+          exact this)
+      simp only [ExtTreeMap.map_fst_toList_eq_keys] at this
+      simp
+      exact this
+    | _ => simp [c02_reads_total, obsOf]
+
+
+theorem canon_lookup_some (a b : KV) (h : stateEq a b = true) (n : String) (s : Secret) (ha : a.secrets[n]? = some s) :
+    ∃ s', b.secrets[n]? = some s' ∧ secCanon s' = secCanon s := by
+  have heq : kvCanon a = kvCanon b := by simpa [stateEq] using h
+  have hm : (n, secCanon s) ∈ kvCanon a := by
+    simp only [kvCanon, List.mem_map]
+    exact ⟨(n, s), ExtTreeMap.mem_toList_iff_getElem?_eq_some.mpr ha, rfl⟩
+  rw [heq] at hm
+  simp only [kvCanon, List.mem_map] at hm
+  obtain ⟨p, hp, hpe⟩ := hm
+  have hb := (ExtTreeMap.mem_toList_iff_getElem?_eq_some (t := b.secrets) (k := p.1) (v := p.2)).mp hp
+  cases p with
+  | mk m s' =>
+    simp only [Prod.mk.injEq] at hpe
+    obtain ⟨rfl, hc⟩ := hpe
+    exact ⟨s', hb, hc⟩
+
+theorem stateEq_symm (a b : KV) (h : stateEq a b = true) : stateEq b a = true := by
+  simp only [stateEq, beq_iff_eq] at *; exact h.symm
+
+/-- two states that differ at one name - present on one side only, or with another canonical
+form - are not `stateEq` -/
+theorem not_stateEq_of_lookup (a b : KV) (n : String)
+    (hd : (a.secrets[n]?).map secCanon ≠ (b.secrets[n]?).map secCanon) : stateEq a b = false := by
+  cases h : stateEq a b with
+  | false => rfl
+  | true =>
+    exfalso
+    apply hd
+    cases ha : a.secrets[n]? with
+    | some s =>
+      obtain ⟨s', hb, hc⟩ := canon_lookup_some a b h n s ha
+      simp [hb, hc]
+    | none =>
+      cases hb : b.secrets[n]? with
+      | none => rfl
+      | some s' =>
+        obtain ⟨s, ha', _⟩ := canon_lookup_some b a (stateEq_symm a b h) n s' hb
+        rw [ha] at ha'; cases ha'
+
+theorem kvPost_gen (kv : KV) (op : Op) (sok : Bool) (h : Inv kv) :
+    kvPost Cfg.std kv op sok = kv ∨
+    ((kvPost Cfg.std kv op sok).gen = kv.gen + 1 ∧ stateEq (kvPost Cfg.std kv op sok) kv = false) := by
+  cases sok with
+  | false => left; exact kvPost_savefail Cfg.std kv op h
+  | true =>
+    cases op with
+    | put n val =>
+      simp only [kvPost, std_guardPresent]
+      unfold put
+      cases hn : kv.secrets[n]? with
+      | none =>
+        right
+        refine ⟨by simp [save], not_stateEq_of_lookup _ _ n ?_⟩
+        simp [save, hn]
+      | some s =>
+        simp only
+        by_cases hd : dedupe true s val = true
+        · left; simp [hd]
+        · right
+          simp only [hd, Bool.false_eq_true, if_false, if_true]
+          refine ⟨by simp [save], not_stateEq_of_lookup _ _ n ?_⟩
+          simp [save, hn, secCanon, putNewMutate]
+    | activate n v =>
+      simp only [kvPost]
+      unfold setActive
+      by_cases hv : v = 0
+      · left; simp [hv]
+      · simp only [hv, if_false]
+        cases hn : kv.secrets[n]? with
+        | none => left; rfl
+        | some s =>
+          simp only
+          by_cases hmem : v ∈ s.versions
+          · simp only [hmem, not_true_eq_false, if_false]
+            by_cases ha : s.active = v
+            · left; simp [ha]
+            · right
+              simp only [ha, if_false, if_true]
+              refine ⟨by simp [save], not_stateEq_of_lookup _ _ n ?_⟩
+              simp [save, hn, secCanon]
+              exact fun e => ha e.symm
+          · left; simp [hmem]
+    | deleteVersion n v =>
+      simp only [kvPost]
+      unfold deleteVersion
+      by_cases hv : v = 0
+      · left; simp [hv]
+      · simp only [hv, if_false]
+        cases hn : kv.secrets[n]? with
+        | none => left; rfl
+        | some s =>
+          simp only
+          by_cases ha : v = s.active
+          · left; simp [ha]
+          · simp only [ha, if_false]
+            cases hk : s.versions[v]? with
+            | none => left; rfl
+            | some old =>
+              right
+              simp only [if_true]
+              refine ⟨by simp [save], not_stateEq_of_lookup _ _ n ?_⟩
+              have hmem : v ∈ s.versions := ExtTreeMap.mem_iff_isSome_getElem?.mpr (by simp [hk])
+              have hlen : (s.versions.erase v).toList.length ≠ s.versions.toList.length := by
+                rw [ExtTreeMap.length_toList, ExtTreeMap.length_toList, ExtTreeMap.size_erase]
+                have hpos : 0 < s.versions.size := by
+                  rcases Nat.eq_zero_or_pos s.versions.size with h0 | hp
+                  · have := ExtTreeMap.eq_empty_iff_size_eq_zero.mpr h0
+                    rw [this] at hmem
+                    exact absurd hmem ExtTreeMap.not_mem_empty
+                  · exact hp
+                simp [hmem]; omega
+              simp only [save, hn]
+              intro hcon
+              simp [secCanon] at hcon
+              exact hlen (by rw [hcon])
+    | delete n =>
+      simp only [kvPost]
+      unfold deleteSecret
+      cases hn : kv.secrets[n]? with
+      | none => left; rfl
+      | some s =>
+        right
+        simp only [if_true]
+        refine ⟨by simp [save], not_stateEq_of_lookup _ _ n ?_⟩
+        simp [save, hn]
+    | _ => left; rfl
+
+theorem c04_gen_iff_saved_sound (kv : KV) (c : Caller) (op : Op) (aok sok : Bool) (h : Inv kv) :
+    c04_gen_iff_saved (obsOf kv c op aok sok) = true := by
+  simp only [c04_gen_iff_saved, obsOf]
+  rcases step_state Cfg.std kv c op aok sok with e | e
+  · simp [e]
+  · rcases kvPost_gen kv op sok h with e2 | ⟨hg, hne⟩
+    · simp [e, e2]
+    · simp [e, hg, hne]
+
+
+/-- Every clause the driver evaluates on a step of the real database holds of the specification's
+own step, in every state reachable from the empty database, for every caller, operation and
+oracle choice: the monitors demand nothing the specification does not. -/
+theorem all_clauses_sound (xs : List Call) (c : Caller) (op : Op) (aok sok : Bool) :
+    ∀ cl ∈ clauses, cl.2.2 (obsOf (run Cfg.std KV.empty xs) c op aok sok) = true := by
+  have hI := run_inv Cfg.std KV.empty inv_empty xs
+  have hN := run_nameInv KV.empty inv_empty (by intro n s h; simp [KV.empty] at h) xs
+  intro cl hcl
+  simp only [clauses, List.mem_cons, List.not_mem_nil, or_false] at hcl
+  rcases hcl with rfl | rfl | rfl | rfl | rfl | rfl | rfl | rfl | rfl | rfl | rfl | rfl | rfl | rfl | rfl | rfl | rfl | rfl | rfl | rfl | rfl | rfl
+  · exact c01_denied_noeffect_sound (run Cfg.std KV.empty xs) c op aok sok
+  · exact c01_effect_only_if_granted_sound (run Cfg.std KV.empty xs) c op aok sok
+  · exact c01_changes_only_granted_sound (run Cfg.std KV.empty xs) c op aok sok hI
+  · exact c01_list_exact_sound (run Cfg.std KV.empty xs) c op aok sok
+  · exact c02_inv_sound (run Cfg.std KV.empty xs) c op aok sok hI hN
+  · show c02_failed_noop _ = true
+    simp only [c02_failed_noop, obsOf]
+    by_cases h : (step Cfg.std (run Cfg.std KV.empty xs) c op aok sok).2.1.isError = true
+    · simp [h, failed_calls_noop _ hI c op aok sok h]
+    · simp [h]
+  · exact c02_frame_sound (run Cfg.std KV.empty xs) c op aok sok hI
+  · exact c02_put_sound (run Cfg.std KV.empty xs) c op aok sok hI
+  · exact c02_bytes_stable_sound (run Cfg.std KV.empty xs) c op aok sok hI
+  · exact c02_active_sound (run Cfg.std KV.empty xs) c op aok sok hI
+  · exact c02_delete_version_sound (run Cfg.std KV.empty xs) c op aok sok hI
+  · exact c02_reads_sound (run Cfg.std KV.empty xs) c op aok sok
+  · exact c02_reads_total_sound (run Cfg.std KV.empty xs) c op aok sok
+  · exact c04_savefail_noop_sound (run Cfg.std KV.empty xs) c op aok sok hI
+  · exact c04_gen_iff_saved_sound (run Cfg.std KV.empty xs) c op aok sok hI
+  · exact c04_mem_eq_disk_sound (run Cfg.std KV.empty xs) c op aok sok
+  · exact c06_recorded_sound (run Cfg.std KV.empty xs) c op aok sok
+  · exact c06_before_effect_sound (run Cfg.std KV.empty xs) c op aok sok
+  · exact c06_fail_closed_sound (run Cfg.std KV.empty xs) c op aok sok
+  · exact c06_unchanged_silent_sound (run Cfg.std KV.empty xs) c op aok sok
+  · exact c09_cond_sound (run Cfg.std KV.empty xs) c op aok sok hI
+  · exact c18_bytes_kept_sound (run Cfg.std KV.empty xs) c op aok sok hI
 
 end Setec.MonSound
